@@ -227,7 +227,11 @@ impl Timestamp {
                 + i128::from(leaps * 86400 + 946_684_800 + 86400);
         }
 
-        let seconds_within_month = 86400 * u32::from(parts.days - 1)
+        // Months and days are one-based; zero is not a valid value for either
+        let days = parts.days.checked_sub(1)?;
+        let months = parts.months.checked_sub(1)?;
+
+        let seconds_within_month = 86400 * u32::from(days)
             + 3600 * u32::from(parts.hours)
             + 60 * u32::from(parts.minutes)
             + u32::from(parts.seconds);
@@ -245,7 +249,7 @@ impl Timestamp {
             273 * 86400, // Oct
             304 * 86400, // Nov
             334 * 86400, // Dec
-        ][usize::from(parts.months - 1) % 12]
+        ][usize::from(months) % 12]
             + seconds_within_month;
 
         if is_leap && parts.months > 2 {
@@ -469,25 +473,65 @@ impl fmt::Display for ParseTimestampError {
 impl std::error::Error for ParseTimestampError {}
 
 fn parse_rfc3339(fmt: &str) -> Result<Timestamp, ParseTimestampError> {
-    if fmt.len() > 30 || fmt.len() < 19 {
+    // Work on bytes; the input may be any string, including non-ASCII ones
+    // where offsets into it aren't guaranteed to fall on char boundaries
+    let fmt = fmt.as_bytes();
+
+    // `0000-00-00T00:00:00Z` through `0000-00-00T00:00:00.000000000Z`
+    if fmt.len() > 30 || fmt.len() < 20 {
         // Invalid length
         return Err(ParseTimestampError {});
     }
 
-    if *fmt.as_bytes().last().unwrap() != b'Z' {
-        // Non-UTC
-        return Err(ParseTimestampError {});
+    // Parse a run of ASCII digits; signs and other non-digits are not valid
+    fn digits(fmt: &[u8]) -> Result<u32, ParseTimestampError> {
+        let mut value = 0u32;
+
+        for b in fmt {
+            if !b.is_ascii_digit() {
+                return Err(ParseTimestampError {});
+            }
+
+            // There are at most 9 digits so this can't overflow
+            value = value * 10 + u32::from(*b - b'0');
+        }
+
+        Ok(value)
     }
 
-    let years = u16::from_str_radix(&fmt[0..4], 10).map_err(|_| ParseTimestampError {})?;
-    let months = u8::from_str_radix(&fmt[5..7], 10).map_err(|_| ParseTimestampError {})?;
-    let days = u8::from_str_radix(&fmt[8..10], 10).map_err(|_| ParseTimestampError {})?;
-    let hours = u8::from_str_radix(&fmt[11..13], 10).map_err(|_| ParseTimestampError {})?;
-    let minutes = u8::from_str_radix(&fmt[14..16], 10).map_err(|_| ParseTimestampError {})?;
-    let seconds = u8::from_str_radix(&fmt[17..19], 10).map_err(|_| ParseTimestampError {})?;
-    let nanos = if fmt.len() > 19 {
+    // Check a separator between runs of digits
+    fn separator(fmt: &[u8], at: usize, expected: u8) -> Result<(), ParseTimestampError> {
+        if fmt.get(at) != Some(&expected) {
+            return Err(ParseTimestampError {});
+        }
+
+        Ok(())
+    }
+
+    separator(fmt, 4, b'-')?;
+    separator(fmt, 7, b'-')?;
+    separator(fmt, 10, b'T')?;
+    separator(fmt, 13, b':')?;
+    separator(fmt, 16, b':')?;
+    // Non-UTC
+    separator(fmt, fmt.len() - 1, b'Z')?;
+
+    let years = digits(&fmt[0..4])? as u16;
+    let months = digits(&fmt[5..7])? as u8;
+    let days = digits(&fmt[8..10])? as u8;
+    let hours = digits(&fmt[11..13])? as u8;
+    let minutes = digits(&fmt[14..16])? as u8;
+    let seconds = digits(&fmt[17..19])? as u8;
+    let nanos = if fmt.len() > 20 {
+        separator(fmt, 19, b'.')?;
+
+        // Between 1 and 9 digits, guaranteed by the length checks above
         let subsecond = &fmt[20..fmt.len() - 1];
-        u32::from_str_radix(subsecond, 10).unwrap() * 10u32.pow(9 - subsecond.len() as u32)
+        if subsecond.is_empty() {
+            return Err(ParseTimestampError {});
+        }
+
+        digits(subsecond)? * 10u32.pow(9 - subsecond.len() as u32)
     } else {
         0
     };
